@@ -212,6 +212,10 @@ def run(ctx):
         if not o.get("idle") or not o.get("freshIdle"):
             ctx.fail("the server did not become idle within the deadline", desc, None, {"idle": o.get("idle"), "fresh": o.get("freshIdle")})
             continue
+        # the invariant of the LspCache model (theorem cache_never_outlives_file) on the real cache at quiescence
+        if o.get("orphanModules") or o.get("orphanAggregates"):
+            ctx.fail("at quiescence the server's cache holds a module / aggregate data of a file that is not in the workspace",
+                     desc, None, {"modules": o.get("orphanModules"), "aggregates": o.get("orphanAggregates")})
         pub, fresh = o["published"], o["fresh"]
         diff = {}
         for f in sorted(set(pub) | set(fresh)):
